@@ -154,6 +154,9 @@ def values_corruptions():
     def names(e):
         e["square"][45][1], e["square"][46][1] = e["square"][46][1], e["square"][45][1]
 
+    def bb_head(e):
+        e["head"][1], e["head"][2] = e["head"][2], e["head"][1]
+
     def pm_len(e):
         e["len"] += 1
 
@@ -188,6 +191,7 @@ def values_corruptions():
         ("an item missing after nth on a bitboard iterator", "bb_iter", lambda e: e["k"] == "ok" and len(e["ad"]["rest"]) > 0, bb_nth, "C18"),
         ("remaining length after nth on a move iterator off by one", "pm", lambda e: e["k"] == "ok" and e["ad"]["k"] == "ok", pm_nth_len, "C17"),
         ("Square::F6 and Square::G6 name each other's squares", "names", lambda e: True, names, "C19"),
+        ("second and third subset of a large mask swapped", "bb_subsets_head", lambda e: e["k"] == "ok" and len(e["head"]) > 3, bb_head, "C18"),
         ("Debug board text shows a8 the other way", "bb_fmt", lambda e: e["k"] == "ok", bb_fmt, "EXT"),
         ("PieceMoves::len off by one", "pm", lambda e: e["k"] == "ok", pm_len, "C17"),
         ("PieceMoves::has accepts a king promotion", "pm", lambda e: len(e["to"]) > 0, pm_has, "C17"),
